@@ -413,4 +413,9 @@ def run(facts, tier, ctx):
     if tier == "thorough" or os.environ.get("VERIF_WITNESS", "1") == "1":
         witness.run_group(ts, "c07", facts.tag, ctx)
     ts.require_floor(4, "Verified<T> impls, constructor sites and witnesses")
-    return [chain, prop, rng, ts]
+    # "every accepted configuration encodes ... losslessly": one structural necessary condition is shared with C02 - the
+    # predictor order the configuration asks for, the order of the quantised predictor actually stored and the warm-up
+    # length of the residual agree at every construction site
+    from . import c02
+    agree = c02.predictor_order(facts, c02.oracle())
+    return [chain, prop, rng, ts] + agree
